@@ -174,7 +174,7 @@ func e1EveryEntry(p *rj.Program, ref rj.Result, got rj.ImplResult) string {
 	}
 	entries := []string{}
 	for _, f := range p.Files {
-		if f.Name != p.Entry {
+		if f.Name != p.Entry && !f.Broken {
 			entries = append(entries, f.Name)
 		}
 	}
